@@ -48,6 +48,8 @@ def run(repo, rep):
     _log_rule(repo, rep, 'C18', 'C18.Z2')
     from ..api_pitfalls import truth_rule as _truth_rule
     _truth_rule(repo, rep, 'C18', 'C18.Z4')
+    from ..api_pitfalls import attribute_rule as _attribute_rule
+    _attribute_rule(repo, rep, 'C18', 'C18.Z5')
     st = repo.module('statuses')
     dm = repo.module('dimsemessages')
     hier = exc_hierarchy(repo)
